@@ -810,6 +810,8 @@ Proof.
   - apply gr_list.
   - apply gr_read.
   - apply fd_refines. exact Hwf.
+  - cbn [fst snd]. split; [exact Hwf|split; reflexivity].
+  - cbn [f_mvx_unlink flags_off fst snd]. split; [exact Hwf|split; reflexivity].
 Qed.
 
 Lemma run_refines ops : forall o, wf o ->
